@@ -241,3 +241,472 @@ Proof.
 Qed.
 
 End Cycle.
+
+(* the cycle through a bin of two elements is their transposition *)
+Lemma cycle2_transp n a b : a < n -> b < n -> a <> b -> cycle_gen n [a; b] = transp n a b.
+Proof.
+  intros Ha Hb Hab.
+  assert (NoDup [a; b]) as Hn by (constructor; [simpl; intuition|constructor; [simpl; tauto|constructor]]).
+  assert (forall x, In x [a; b] -> x < n) as Hl by (intros x [<-|[<-|[]]]; auto).
+  apply (perm_ext n); [apply cycle_length; auto|apply transp_length|].
+  intros x Hx. rewrite app_transp by auto.
+  destruct (Nat.eqb_spec x b) as [->|Nb].
+  - apply (app_cycle_in n [a; b] Hn Hl 1). simpl. lia.
+  - destruct (Nat.eqb_spec x a) as [->|Na].
+    + apply (app_cycle_in n [a; b] Hn Hl 0). simpl. lia.
+    + apply app_cycle_out; auto. intros [<-|[<-|[]]]; auto.
+Qed.
+
+(* ---------------------------------------------------------------- lists of disjoint cells *)
+Lemma NoDup_app_disjoint {A} (l1 l2 : list A) x : NoDup (l1 ++ l2) -> In x l1 -> In x l2 -> False.
+Proof.
+  induction l1 as [|h t IH]; simpl; intros Hn H1 H2; [auto|].
+  inversion Hn; subst. destruct H1 as [->|H1].
+  - apply H3. apply in_or_app. auto.
+  - apply IH; auto.
+Qed.
+
+Lemma NoDup_app_l {A} (l1 l2 : list A) : NoDup (l1 ++ l2) -> NoDup l1.
+Proof.
+  induction l1 as [|h t IH]; simpl; intros Hn; [constructor|]. inversion Hn; subst.
+  constructor; auto. intros H. apply H1. apply in_or_app. auto.
+Qed.
+
+Lemma NoDup_app_r {A} (l1 l2 : list A) : NoDup (l1 ++ l2) -> NoDup l2.
+Proof. induction l1 as [|h t IH]; simpl; intros Hn; auto. inversion Hn; auto. Qed.
+
+Lemma cells_nodup_each (cells : list (list nat)) c : NoDup (concat cells) -> In c cells -> NoDup c.
+Proof.
+  induction cells as [|h t IH]; simpl; intros Hn Hc; [contradiction|].
+  destruct Hc as [->|Hc]; [eapply NoDup_app_l; eauto|apply IH; auto; eapply NoDup_app_r; eauto].
+Qed.
+
+Lemma in_concat_cells (cells : list (list nat)) c x : In c cells -> In x c -> In x (concat cells).
+Proof. intros Hc Hx. apply in_concat. eauto. Qed.
+
+Lemma cells_disjoint (cells : list (list nat)) c1 c2 x :
+  NoDup (concat cells) -> In c1 cells -> In c2 cells -> In x c1 -> In x c2 -> c1 = c2.
+Proof.
+  induction cells as [|h t IH]; simpl; intros Hn H1 H2 X1 X2; [contradiction|].
+  destruct H1 as [->|H1], H2 as [->|H2]; auto.
+  - exfalso. eapply NoDup_app_disjoint; [exact Hn|exact X1|]. eapply in_concat_cells; eauto.
+  - exfalso. eapply NoDup_app_disjoint; [exact Hn|exact X2|]. eapply in_concat_cells; eauto.
+  - apply IH; auto. eapply NoDup_app_r; eauto.
+Qed.
+
+(* ---------------------------------------------------------------- Sym(cell) is generated *)
+Section Edgeless.
+Variable n : nat.
+Variable cells : list (list nat).
+Hypothesis Hcells : cells_ok n cells.
+
+Let gens := edgeless_gens n cells.
+
+Lemma cell_lt c x : In c cells -> In x c -> x < n.
+Proof. intros Hc Hx. apply (proj1 (proj2 Hcells)). eapply in_concat_cells; eauto. Qed.
+
+Lemma cell_nodup c : In c cells -> NoDup c.
+Proof. apply cells_nodup_each. apply Hcells. Qed.
+
+Lemma in_some_cell x : x < n -> exists c, In c cells /\ In x c.
+Proof.
+  intros Hx. apply (proj1 (proj2 Hcells)) in Hx. apply in_concat in Hx.
+  destruct Hx as (c & Hc & Hxc). eauto.
+Qed.
+
+Lemma same_cell_refl x : x < n -> same_cell cells x x.
+Proof. intros Hx. destruct (in_some_cell x Hx) as (c & Hc & Hxc). exists c. auto. Qed.
+
+Lemma same_cell_sym x y : same_cell cells x y -> same_cell cells y x.
+Proof. intros (c & Hc & Hx & Hy). exists c. auto. Qed.
+
+Lemma same_cell_trans x y z : same_cell cells x y -> same_cell cells y z -> same_cell cells x z.
+Proof.
+  intros (c1 & H1 & X1 & Y1) (c2 & H2 & Y2 & Z2).
+  assert (c1 = c2) by (eapply cells_disjoint; eauto; apply Hcells). subst. exists c2. auto.
+Qed.
+
+Lemma same_cell_lt x y : same_cell cells x y -> x < n /\ y < n.
+Proof. intros (c & Hc & Hx & Hy). split; eapply cell_lt; eauto. Qed.
+
+(* cell-preserving permutations *)
+Definition CP (g : perm) : Prop := is_perm n g /\ forall x, x < n -> same_cell cells x (app g x).
+
+Lemma in_gens g : In g gens <-> exists c, In c cells /\ In g (bin_gens n c).
+Proof. unfold gens, edgeless_gens. rewrite in_flat_map. reflexivity. Qed.
+
+Lemma cycle_CP c : In c cells -> CP (cycle_gen n c).
+Proof.
+  intros Hc. pose proof (cell_nodup c Hc) as Hn.
+  assert (forall x, In x c -> x < n) as Hl by (intros x Hx; eapply cell_lt; eauto).
+  split; [apply cycle_perm; auto|]. intros x Hx.
+  destruct (in_dec Nat.eq_dec x c) as [Hin|Hout].
+  - exists c. split; auto. split; auto. apply cycle_in_bin; auto.
+  - rewrite app_cycle_out; auto. apply same_cell_refl; auto.
+Qed.
+
+Lemma transp_CP a b : same_cell cells a b -> CP (transp n a b).
+Proof.
+  intros Hab. destruct (same_cell_lt a b Hab) as (Ha & Hb).
+  split; [apply transp_perm; auto|]. intros x Hx. rewrite app_transp by auto.
+  destruct (Nat.eqb_spec x b) as [->|Nb]; [apply same_cell_sym; auto|].
+  destruct (Nat.eqb_spec x a) as [->|Na]; auto. apply same_cell_refl; auto.
+Qed.
+
+Lemma gens_CP g : In g gens -> CP g.
+Proof.
+  intros Hg. apply in_gens in Hg. destruct Hg as (c & Hc & Hg).
+  destruct c as [|a [|b rest]]; simpl in Hg; try contradiction.
+  assert (same_cell cells a b) as Hab by (exists (a :: b :: rest); simpl; auto).
+  destruct rest as [|d rest]; simpl in Hg.
+  - destruct Hg as [<-|[]]. apply cycle_CP; auto.
+  - destruct Hg as [<-|[<-|[]]]; [apply cycle_CP; auto|apply transp_CP; auto].
+Qed.
+
+Lemma gens_perm : Forall (is_perm n) gens.
+Proof. apply Forall_forall. intros g Hg. apply gens_CP; auto. Qed.
+
+Lemma CP_compose g h : CP g -> CP h -> CP (compose g h).
+Proof.
+  intros (Hg & Cg) (Hh & Ch). split; [apply compose_perm; auto|]. intros x Hx.
+  rewrite app_compose by (destruct Hh; lia).
+  eapply same_cell_trans; [apply Ch; auto|]. apply Cg. apply (app_lt n h); auto.
+Qed.
+
+Lemma CP_inv g : CP g -> CP (inv g).
+Proof.
+  intros (Hg & Cg). split; [apply inv_perm; auto|]. intros x Hx.
+  pose proof (Cg (app (inv g) x) (inv_lt n g x Hg Hx)) as H.
+  rewrite (app_inv_r n) in H by auto. apply same_cell_sym; auto.
+Qed.
+
+Lemma generated_CP g : generated n gens g -> CP g.
+Proof.
+  induction 1.
+  - split; [apply idp_perm|]. intros x Hx. rewrite app_idp. apply same_cell_refl; auto.
+  - apply gens_CP; auto.
+  - apply CP_compose; auto.
+  - apply CP_inv; auto.
+Qed.
+
+(* the transposition of the first two elements of a cell is generated *)
+Lemma first_transp_generated a b rest : In (a :: b :: rest) cells -> generated n gens (transp n a b).
+Proof.
+  intros Hc. destruct rest as [|d rest].
+  - pose proof (cell_nodup _ Hc) as Hn. inversion Hn; subst.
+    rewrite <- cycle2_transp.
+    + apply gen_in, in_gens. exists [a; b]. simpl; auto.
+    + eapply cell_lt; eauto. simpl; auto.
+    + eapply cell_lt; eauto. simpl; auto.
+    + intros ->. apply H1. simpl; auto.
+  - apply gen_in, in_gens. exists (a :: b :: d :: rest). simpl; auto.
+Qed.
+
+Section OneCell.
+Variable c : list nat.
+Hypothesis Hc : In c cells.
+Hypothesis Hlen : 2 <= length c.
+
+Let el (j : nat) : nat := nth j c 0.
+
+Lemma el_lt j : j < length c -> el j < n.
+Proof. intros Hj. eapply cell_lt; eauto. apply nth_In; auto. Qed.
+
+Lemma el_inj i j : i < length c -> j < length c -> el i = el j -> i = j.
+Proof. intros Hi Hj E. apply (proj1 (NoDup_nth c 0) (cell_nodup c Hc)); auto. Qed.
+
+Lemma sigma_generated : generated n gens (cycle_gen n c).
+Proof.
+  apply gen_in, in_gens. exists c. split; auto.
+  destruct c as [|a [|b [|d rest]]]; simpl in *; try lia; auto.
+Qed.
+
+Lemma sigma_el j : S j < length c -> app (cycle_gen n c) (el j) = el (S j).
+Proof.
+  intros Hj. unfold el. rewrite (app_cycle_in n c (cell_nodup c Hc)) by (try lia; intros x Hx; eapply cell_lt; eauto).
+  rewrite Nat.mod_small by lia. reflexivity.
+Qed.
+
+Lemma adjacent_generated : forall j, S j < length c -> generated n gens (transp n (el j) (el (S j))).
+Proof.
+  induction j as [|j IH]; intros Hj.
+  - unfold el. destruct c as [|a [|b rest]]; simpl in *; try lia. eapply first_transp_generated; eauto.
+  - rewrite <- (sigma_el j), <- (sigma_el (S j)) by lia.
+    rewrite <- conj_transp.
+    + apply gen_mul; [apply sigma_generated|]. apply gen_mul; [apply IH; lia|apply gen_inv, sigma_generated].
+    + apply cycle_perm; [apply cell_nodup; auto|intros x Hx; eapply cell_lt; eauto].
+    + apply el_lt; lia.
+    + apply el_lt; lia.
+Qed.
+
+Lemma pair_generated : forall d i, i + S d < length c -> generated n gens (transp n (el i) (el (i + S d))).
+Proof.
+  induction d as [|d IH]; intros i Hi.
+  - replace (i + 1) with (S i) by lia. apply adjacent_generated. lia.
+  - set (j := i + S d).
+    assert (app (transp n (el j) (el (S j))) (el i) = el i) as E1.
+    { apply app_transp_o; try (apply el_lt; lia); intros E; apply el_inj in E; lia. }
+    assert (app (transp n (el j) (el (S j))) (el j) = el (S j)) as E2
+      by (apply app_transp_l; apply el_lt; lia).
+    replace (i + S (S d)) with (S j) by lia.
+    rewrite <- E1 at 1. rewrite <- E2 at 2. rewrite <- conj_transp.
+    + apply gen_mul; [apply adjacent_generated; lia|].
+      apply gen_mul; [apply IH; lia|apply gen_inv, adjacent_generated; lia].
+    + apply transp_perm; apply el_lt; lia.
+    + apply el_lt; lia.
+    + apply el_lt; lia.
+Qed.
+
+Lemma any_pair_generated i j : i < length c -> j < length c -> i <> j ->
+  generated n gens (transp n (el i) (el j)).
+Proof.
+  intros Hi Hj Hij. destruct (Nat.lt_ge_cases i j).
+  - replace j with (i + S (j - i - 1)) by lia. apply pair_generated. lia.
+  - rewrite transp_sym by (apply el_lt; auto).
+    replace (el i) with (el (j + S (i - j - 1))) by (f_equal; lia). apply pair_generated. lia.
+Qed.
+
+End OneCell.
+
+Lemma transp_generated a b : same_cell cells a b -> a <> b -> generated n gens (transp n a b).
+Proof.
+  intros (c & Hc & Ha & Hb) Hab.
+  destruct (In_nth c a 0 Ha) as (i & Hi & Ei). destruct (In_nth c b 0 Hb) as (j & Hj & Ej).
+  rewrite <- Ei, <- Ej. apply any_pair_generated; auto.
+  - destruct c as [|x [|y rest]]; simpl in *; lia.
+  - intros ->. congruence.
+Qed.
+
+(* every cell-preserving permutation is a product of such transpositions *)
+Lemma CP_generated : forall k g, CP g -> (forall x, x < n - k -> app g x = x) -> generated n gens g.
+Proof.
+  induction k as [|k IH]; intros g Hg Hfix.
+  - replace g with (idp n); [constructor|]. apply (perm_ext n); [apply seq_length|apply Hg|].
+    intros i Hi. rewrite app_idp. symmetry. apply Hfix. lia.
+  - destruct (Nat.le_gt_cases n k) as [Hnk|Hnk].
+    { apply IH; auto. intros x Hx. lia. }
+    set (p := n - S k). assert (p < n) as Hp by (unfold p; lia).
+    destruct Hg as (Pg & Cg). pose proof (app_lt n g p Pg Hp) as Hy.
+    destruct (Nat.eq_dec (app g p) p) as [E|NE].
+    + apply IH; [split; auto|]. intros x Hx. destruct (Nat.eq_dec x p) as [->|]; auto. apply Hfix. lia.
+    + set (y := app g p) in *.
+      assert (same_cell cells p y) as Hpy by (apply Cg; auto).
+      set (t := transp n p y).
+      assert (generated n gens t) as Gt by (apply transp_generated; auto).
+      assert (CP t) as Ct by (apply transp_CP; auto).
+      assert (CP (compose t g)) as Ch by (apply CP_compose; [auto|split; auto]).
+      assert (generated n gens (compose t g)) as Gh.
+      { apply IH; auto. intros x Hx. rewrite app_compose by (destruct Pg; lia).
+        destruct (Nat.eq_dec x p) as [->|Nxp].
+        - apply app_transp_r; auto.
+        - assert (app g x = x) as Fx by (apply Hfix; unfold p in *; lia).
+          rewrite Fx. apply app_transp_o; auto.
+          intros E. apply Nxp. apply (app_inj n g x p Pg); [lia|exact Hp|]. rewrite Fx. exact E. }
+      replace g with (compose t (compose t g)); [apply gen_mul; auto|].
+      apply (perm_ext n); [rewrite !compose_length; apply Pg|apply Pg|].
+      intros i Hi. rewrite app_compose by (rewrite compose_length; destruct Pg; lia).
+      rewrite app_compose by (destruct Pg; lia). apply transp_invol; auto.
+Qed.
+
+(* ---------------------------------------------------------------- main theorems *)
+Theorem edgeless_generated_iff g : generated n gens g <-> CP g.
+Proof.
+  split; [apply generated_CP|]. intros H. apply (CP_generated n g H). intros x Hx. lia.
+Qed.
+
+Theorem edgeless_orbit_iff x y : x < n -> y < n -> (orbit n gens x y <-> same_cell cells x y).
+Proof.
+  intros Hx Hy. split.
+  - intros (g & Hg & <-). apply generated_CP in Hg. apply Hg; auto.
+  - intros H. destruct (Nat.eq_dec x y) as [->|Nxy]; [apply orbit_refl|].
+    exists (transp n x y). split; [apply transp_generated; auto|apply app_transp_l; auto].
+Qed.
+
+(* with a class function describing the cells: CP = class-preserving automorphisms of the
+   edgeless graph *)
+Theorem CP_iff_Aut (cls : nat -> nat) g :
+  (forall x y, x < n -> y < n -> (cls x = cls y <-> same_cell cells x y)) ->
+  (CP g <-> Aut n (fun _ _ => false) cls g).
+Proof.
+  intros Hcls. unfold CP, Aut. split.
+  - intros (Hp & Hc). split; auto. split; auto. intros i Hi. apply Hcls; auto.
+    + apply (app_lt n g); auto.
+    + apply same_cell_sym. auto.
+  - intros (Hp & _ & Hc). split; auto. intros x Hx. apply Hcls; auto.
+    + apply (app_lt n g); auto.
+    + symmetry. auto.
+Qed.
+
+End Edgeless.
+
+(* ---------------------------------------------------------------- the hand-written union-find array *)
+Lemma bin_ds_length ds c : length (bin_ds ds c) = length ds.
+Proof.
+  destruct c as [|a [|b rest]]; simpl; auto; [apply upd_length|].
+  assert (forall l d, length (fold_left (fun d v => upd d v (Z.of_nat a)) l d) = length d) as H.
+  { induction l as [|v l IH]; intros d; simpl; auto. rewrite IH. apply upd_length. }
+  rewrite H. rewrite !upd_length. reflexivity.
+Qed.
+
+Lemma fold_upd_get a : forall l (d : dset),
+  (forall v, In v l -> v < length d) ->
+  (forall v, In v l -> get (fold_left (fun d v => upd d v (Z.of_nat a)) l d) v = Z.of_nat a) /\
+  (forall x, ~ In x l -> get (fold_left (fun d v => upd d v (Z.of_nat a)) l d) x = get d x).
+Proof.
+  induction l as [|w l IH]; intros d Hl; simpl.
+  - split; [intros v []|auto].
+  - destruct (IH (upd d w (Z.of_nat a))) as (A & B).
+    { intros v Hv. rewrite upd_length. apply Hl. simpl; auto. }
+    split.
+    + intros v [->|Hv]; auto. destruct (in_dec Nat.eq_dec v l) as [Hin|Hout]; auto.
+      rewrite B by auto. apply get_upd_same. apply Hl. simpl; auto.
+    + intros x Hx. rewrite B by (intros H; apply Hx; auto).
+      apply get_upd_other. intros ->. apply Hx. auto.
+Qed.
+
+(* one bin: the first element becomes a root, the others point to it, nothing else changes *)
+Lemma bin_ds_spec ds a rest : NoDup (a :: rest) -> (forall v, In v (a :: rest) -> v < length ds) ->
+  (get (bin_ds ds (a :: rest)) a < 0)%Z /\
+  (forall v, In v rest -> get (bin_ds ds (a :: rest)) v = Z.of_nat a) /\
+  (forall x, ~ In x (a :: rest) -> get (bin_ds ds (a :: rest)) x = get ds x).
+Proof.
+  intros Hn Hl. inversion Hn; subst.
+  assert (a < length ds) as Ha by (apply Hl; simpl; auto).
+  destruct rest as [|b rest].
+  - simpl. split; [rewrite get_upd_same by auto; lia|]. split; [intros v []|].
+    intros x Hx. apply get_upd_other. intros ->. apply Hx. simpl; auto.
+  - unfold bin_ds.
+    destruct (fold_upd_get a (b :: rest) (upd ds a (-2)%Z)) as (A & B).
+    { intros v Hv. rewrite upd_length. apply Hl. simpl. simpl in Hv. tauto. }
+    split; [rewrite B by auto; rewrite get_upd_same by auto; lia|]. split; auto.
+    intros x Hx. rewrite B by (intros H; apply Hx; simpl; simpl in H; tauto).
+    apply get_upd_other. intros ->. apply Hx. simpl; auto.
+Qed.
+
+Lemma edgeless_ds_get : forall cells (old : dset),
+  NoDup (concat cells) -> (forall x, In x (concat cells) -> x < length old) -> ~ In [] cells ->
+  length (edgeless_ds old cells) = length old /\
+  (forall a rest, In (a :: rest) cells ->
+     (get (edgeless_ds old cells) a < 0)%Z /\
+     forall v, In v rest -> get (edgeless_ds old cells) v = Z.of_nat a) /\
+  (forall x, ~ In x (concat cells) -> get (edgeless_ds old cells) x = get old x).
+Proof.
+  induction cells as [|c cells IH]; intros old Hn Hl He.
+  - simpl. split; auto. split; [intros a rest []|auto].
+  - change (edgeless_ds old (c :: cells)) with (edgeless_ds (bin_ds old c) cells).
+    cbn [concat] in Hn.
+    assert (c <> []) as Hc by (intros ->; apply He; simpl; auto).
+    destruct c as [|a0 rest0]; [congruence|].
+    pose proof (NoDup_app_l _ _ Hn) as Hnc.
+    destruct (bin_ds_spec old a0 rest0 Hnc) as (R0 & P0 & O0).
+    { intros v Hv. apply Hl. cbn [concat]. apply in_or_app. auto. }
+    destruct (IH (bin_ds old (a0 :: rest0))) as (L & A & B).
+    { eapply NoDup_app_r; eauto. }
+    { intros x Hx. rewrite bin_ds_length. apply Hl. cbn [concat]. apply in_or_app. auto. }
+    { intros H. apply He. simpl; auto. }
+    split; [rewrite L; apply bin_ds_length|]. split.
+    + intros a rest [E|Hin].
+      * inversion E; subst a0 rest0.
+        assert (forall x, In x (a :: rest) -> ~ In x (concat cells)) as Hd.
+        { intros x Hx Hx'. eapply NoDup_app_disjoint; [exact Hn|exact Hx|exact Hx']. }
+        split.
+        -- rewrite B by (apply Hd; simpl; auto). exact R0.
+        -- intros v Hv. rewrite B by (apply Hd; simpl; auto). apply P0; auto.
+      * apply A; auto.
+    + intros x Hx. rewrite B by (intros H; apply Hx; cbn [concat]; apply in_or_app; auto).
+      apply O0. intros H. apply Hx. cbn [concat]. apply in_or_app. auto.
+Qed.
+
+(* the value written at the first element of a cell does not depend on the old contents *)
+Lemma edgeless_ds_root : forall cells n a rest (o o' : dset),
+  NoDup (concat cells) -> (forall x, In x (concat cells) -> x < n) -> ~ In [] cells ->
+  In (a :: rest) cells -> length o = n -> length o' = n ->
+  get (edgeless_ds o' cells) a = get (edgeless_ds o cells) a.
+Proof.
+  induction cells as [|c cs IH]; intros n a rest o o' Hn Hall' He Hcin Ho Ho'; [contradiction|].
+  cbn [concat] in Hn.
+  change (edgeless_ds o' (c :: cs)) with (edgeless_ds (bin_ds o' c) cs).
+  change (edgeless_ds o (c :: cs)) with (edgeless_ds (bin_ds o c) cs).
+  destruct Hcin as [->|Hin].
+  - assert (~ In a (concat cs)) as Hout.
+    { intros H. eapply NoDup_app_disjoint; [exact Hn| |exact H]. simpl; auto. }
+    destruct (edgeless_ds_get cs (bin_ds o' (a :: rest))) as (_ & _ & B').
+    { eapply NoDup_app_r; eauto. }
+    { intros x Hx. rewrite bin_ds_length, Ho'. apply Hall'. cbn [concat]. apply in_or_app; auto. }
+    { intros H. apply He. simpl; auto. }
+    destruct (edgeless_ds_get cs (bin_ds o (a :: rest))) as (_ & _ & B).
+    { eapply NoDup_app_r; eauto. }
+    { intros x Hx. rewrite bin_ds_length, Ho. apply Hall'. cbn [concat]. apply in_or_app; auto. }
+    { intros H. apply He. simpl; auto. }
+    rewrite B', B by auto.
+    assert (a < n) as Han by (apply Hall'; cbn [concat]; apply in_or_app; left; simpl; auto).
+    pose proof (NoDup_app_l _ _ Hn) as Hnc. inversion Hnc as [|? ? Hna Hnr].
+    destruct rest as [|b rest].
+    + simpl. rewrite !get_upd_same by lia. reflexivity.
+    + unfold bin_ds.
+      destruct (fold_upd_get a (b :: rest) (upd o' a (-2)%Z)) as (_ & F').
+      { intros v Hv. rewrite upd_length, Ho'. apply Hall'. cbn [concat]. apply in_or_app. left. right. exact Hv. }
+      destruct (fold_upd_get a (b :: rest) (upd o a (-2)%Z)) as (_ & F).
+      { intros v Hv. rewrite upd_length, Ho. apply Hall'. cbn [concat]. apply in_or_app. left. right. exact Hv. }
+      rewrite F', F by exact Hna. rewrite !get_upd_same by lia. reflexivity.
+  - apply (IH n a rest); auto.
+    + eapply NoDup_app_r; eauto.
+    + intros x Hx. apply Hall'. cbn [concat]. apply in_or_app; auto.
+    + intros H. apply He. simpl; auto.
+    + rewrite bin_ds_length; auto.
+    + rewrite bin_ds_length; auto.
+Qed.
+
+(* The array written by the shortcut is a well-formed forest representing exactly the cells,
+   whatever the storage held before ([old] is arbitrary of length n). *)
+Theorem edgeless_ds_spec n cells (old : dset) : cells_ok n cells -> length old = n ->
+  length (edgeless_ds old cells) = n /\ WF (edgeless_ds old cells) /\
+  (forall x y, x < n -> y < n -> (same (edgeless_ds old cells) x y <-> same_cell cells x y)) /\
+  (forall old', length old' = n -> edgeless_ds old' cells = edgeless_ds old cells).
+Proof.
+  intros Hc Hlen. pose proof Hc as (Hn & Hall & He).
+  assert (forall o, length o = n ->
+     length (edgeless_ds o cells) = n /\
+     (forall a rest, In (a :: rest) cells ->
+        (get (edgeless_ds o cells) a < 0)%Z /\
+        forall v, In v rest -> get (edgeless_ds o cells) v = Z.of_nat a)) as Hget.
+  { intros o Ho. destruct (edgeless_ds_get cells o Hn) as (L & A & _); auto.
+    - intros x Hx. rewrite Ho. apply Hall; auto.
+    - split; [lia|auto]. }
+  destruct (Hget old Hlen) as (L & A).
+  set (ds := edgeless_ds old cells) in *.
+  (* every member of a cell reaches the first element of the cell *)
+  assert (forall a rest v, In (a :: rest) cells -> In v (a :: rest) -> reaches ds v a) as Hreach.
+  { intros a rest v Hin Hv. destruct (A a rest Hin) as (Ra & Pa).
+    assert (a < n) as Han by (apply Hall; eapply in_concat_cells; eauto; simpl; auto).
+    assert (reaches ds a a) as Hroot by (apply r_root; [lia|auto]).
+    destruct Hv as [<-|Hv]; auto.
+    assert (v < n) as Hvn by (apply Hall; eapply in_concat_cells; eauto; simpl; auto).
+    apply r_step; [lia|rewrite Pa by auto; lia|]. rewrite Pa by auto. rewrite Nat2Z.id. exact Hroot. }
+  split; [exact L|]. split; [|split].
+  - intros i Hi. rewrite L in Hi. apply Hall in Hi. apply in_concat in Hi.
+    destruct Hi as (c & Hcin & Hic). destruct c as [|a rest]; [contradiction|]. exists a. eapply Hreach; eauto.
+  - intros x y Hx Hy. split.
+    + intros (r & Rx & Ry).
+      apply Hall in Hx. apply in_concat in Hx. destruct Hx as (c1 & H1 & X1).
+      apply Hall in Hy. apply in_concat in Hy. destruct Hy as (c2 & H2 & Y2).
+      destruct c1 as [|a1 r1]; [contradiction|]. destruct c2 as [|a2 r2]; [contradiction|].
+      pose proof (reaches_fun _ _ _ _ Rx (Hreach a1 r1 x H1 X1)) as E1.
+      pose proof (reaches_fun _ _ _ _ Ry (Hreach a2 r2 y H2 Y2)) as E2.
+      assert (a1 = a2) as Ea by congruence.
+      assert (a1 :: r1 = a2 :: r2) as E.
+      { apply (cells_disjoint cells _ _ a1 Hn H1 H2); [simpl; auto|rewrite Ea; simpl; auto]. }
+      exists (a2 :: r2). split; [auto|]. split; [rewrite <- E; auto|auto].
+    + intros (c & Hcin & Xc & Yc). destruct c as [|a rest]; [contradiction|].
+      exists a. split; eapply Hreach; eauto.
+  - intros old' Hlen'. destruct (Hget old' Hlen') as (L' & A'). subst ds.
+    apply (nth_ext _ _ (-1)%Z (-1)%Z); [lia|].
+    intros i Hi. rewrite L' in Hi. pose proof Hi as Hi2. apply Hall in Hi2. apply in_concat in Hi2.
+    destruct Hi2 as (c & Hcin & Hic). destruct c as [|a rest]; [contradiction|].
+    fold (get (edgeless_ds old' cells) i). fold (get (edgeless_ds old cells) i).
+    (* both arrays are determined on the members of a cell, except for the root value *)
+    destruct Hic as [<-|Hv].
+    + apply (edgeless_ds_root cells n a rest); auto. intros x Hx. apply Hall; auto.
+    + destruct (A' a rest Hcin) as (_ & P'). destruct (A a rest Hcin) as (_ & P).
+      rewrite P', P by auto. reflexivity.
+Qed.
